@@ -2,6 +2,7 @@ package props
 
 import (
 	"fmt"
+	"os"
 
 	"github.com/trajectoryjp/spatial_id_go/v4/detector"
 
@@ -82,6 +83,16 @@ func c05Related(r *core.Rng, a ref.ID, square bool) (ref.ID, string) {
 		}
 		dh, dv := pickZ(0, 4)
 		return descendant(r, s, zl(s.H, dh), zl(s.V, dv)), "sibling-descendant"
+	case 6:
+		if r.P(0.3) { // same tile and zooms, vertical index 2^v apart (equal in the low v bits)
+			b := a
+			if b.F >= 0 {
+				b.F -= pow2(b.V)
+			} else {
+				b.F += pow2(b.V)
+			}
+			return b, "f-alias-2^v"
+		}
 	case 5: // mixed: coarser on one axis, finer on the other (not available for the square form)
 		if square {
 			dh, _ := pickZ(0, 4)
@@ -294,6 +305,10 @@ func runC05(c *core.Case) {
 		c05BigLists(c, square)
 		return
 	}
+	if r.P(0.0003) || (c.Tier == "thorough" && r.P(0.0003)) || (os.Getenv("C05_FORCE") != "" && r.P(0.01)) {
+		c05VeryLong(c)
+		return
+	}
 	if r.P(0.01) {
 		c05Confusable(c)
 		return
@@ -454,9 +469,7 @@ func c05BigLists(c *core.Case, square bool) {
 	n1, n2 := 60+r.Intn(12), 70+r.Intn(12)
 	z := r.Range(12, 30)
 	mk := func() ref.ID {
-		a := genID(r, z, z, z, z)
-		a.F = clampI(a.F, -pow2(z-1), pow2(z-1)-1)
-		return a
+		return ref.ID{H: z, X: r.I64n(pow2(z)), Y: r.I64n(pow2(z)), V: z, F: r.Range(-pow2(z-1), pow2(z-1)-1)}
 	}
 	var l1, l2 []ref.ID
 	for len(l1) < n1 {
@@ -576,5 +589,107 @@ func c05Confusable(c *core.Case) {
 			c.Fail("overlap-spatial-array-history", nil, "CheckSpatialIdsArrayOverlap(%v,%v) (swapped) as call %d of A,B,A: (%v,%v), want %v", sp, l, k+1, g2, err2, want(ids))
 			return
 		}
+	}
+}
+
+// c05VeryLong: one very long list (2^15 .. 2^17 + 3 IDs, pairwise disjoint from the probe list) against a short
+// list, with the only overlapping ID planted among the last few elements; tree-based and pairwise forms, both orders.
+// In the thorough tier also two 512-element lists of h == v IDs (>= 2^18 pairs) that include voxels outside the
+// +-2^24 m window and a pair whose vertical indices differ by exactly 2^z.
+func c05VeryLong(c *core.Case) {
+	r := c.R
+	z := r.Range(14, 30)
+	mk := func() ref.ID { // uniform draws inside the altitude window: pairwise disjoint with overwhelming probability
+		return ref.ID{H: z, X: r.I64n(pow2(z)), Y: r.I64n(pow2(z)), V: z, F: r.Range(-pow2(z-1), pow2(z-1)-1)}
+	}
+	n := veryLongLen(r)
+	long := make([]ref.ID, n)
+	for i := range long {
+		long[i] = mk()
+	}
+	short := []ref.ID{mk(), mk(), mk()}
+	plant := r.P(0.75)
+	pos := n - 1 - r.Intn(7)
+	if plant {
+		long[pos] = descendant(r, short[r.Intn(3)], clampI(z+1, 0, 35), clampI(z+1, 0, 35))
+	}
+	want := false
+	for _, y := range short {
+		for _, x := range long {
+			if ref.Overlap(x, y) {
+				want = true
+				break
+			}
+		}
+	}
+	c.Tag("very-long-list")
+	c.NonTrivial()
+	c.KI(int64(n), int64(pos), z)
+	c.KS(short[0].Ext())
+	c.Desc = func() any {
+		return map[string]any{"scenario": "very long list", "len": n, "planted": plant, "position": pos, "zoom": z, "expected": want}
+	}
+	sl, ss := ref.Spatials(long), ref.Spatials(short)
+	for _, sw := range []bool{false, true} {
+		a, b := sl, ss
+		if sw {
+			a, b = b, a
+		}
+		g, err := detector.CheckSpatialIdsArrayOverlap(a, b)
+		c.Call()
+		if err != nil || g != want {
+			c.Fail("overlap-spatial-array-very-long", nil, "CheckSpatialIdsArrayOverlap with a list of %d IDs (swapped %v), only overlap at position %d: (%v,%v), want %v", n, sw, pos, g, err, want)
+			return
+		}
+	}
+	el, es := ref.Exts(long[n-4000:]), ref.Exts(short) // the pairwise form is O(n*m): use the tail
+	wantTail := false
+	for _, y := range short {
+		for _, x := range long[n-4000:] {
+			if ref.Overlap(x, y) {
+				wantTail = true
+			}
+		}
+	}
+	g, err := detector.CheckExtendedSpatialIdsArrayOverlap(el, es)
+	c.Call()
+	if err != nil || g != wantTail {
+		c.Fail("overlap-array-very-long", nil, "CheckExtendedSpatialIdsArrayOverlap with a list of 4000 IDs: (%v,%v), want %v", g, err, wantTail)
+		return
+	}
+	if (c.Tier != "thorough" || !r.P(0.3)) && os.Getenv("C05_FORCE") == "" {
+		return
+	}
+	// >= 2^18 pairs of h == v IDs, not restricted to the altitude window of the tree-based form
+	var l1, l2 []ref.ID
+	uni := func() ref.ID { // uniform draws: the two lists are disjoint with overwhelming probability
+		return ref.ID{H: z, X: r.I64n(pow2(z)), Y: r.I64n(pow2(z)), V: z, F: r.Range(-pow2(z), pow2(z)-1)}
+	}
+	for len(l1) < 512 {
+		l1 = append(l1, uni())
+	}
+	for len(l2) < 513 {
+		l2 = append(l2, uni())
+	}
+	al := l1[r.Intn(512)]
+	if al.F >= 0 {
+		al.F -= pow2(z)
+	} else {
+		al.F += pow2(z)
+	}
+	l2[r.Intn(513)] = al
+	wantSq := false
+	for _, x := range l1 {
+		for _, y := range l2 {
+			if ref.Overlap(x, y) {
+				wantSq = true
+			}
+		}
+	}
+	g2, err2 := detector.CheckExtendedSpatialIdsArrayOverlap(ref.Exts(l1), ref.Exts(l2))
+	c.Call()
+	c.Tag("262k-pairs-square-ids")
+	if err2 != nil || g2 != wantSq {
+		c.Fail("overlap-array-262k-pairs", nil, "CheckExtendedSpatialIdsArrayOverlap on 512 x 513 IDs with h == v = %d (one pair has vertical indices exactly 2^z apart): (%v,%v), want %v", z, g2, err2, wantSq)
 	}
 }
